@@ -12,7 +12,9 @@ LEVEL = "exploration"
 RULE = ("Hypothesis-generated sequential histories over 2-3 root objects bound to ONE resource plus up "
         "to 6 retained nested-child handles spread over them (no outside writer); steps = any public "
         "mutator (clear()/reset() on nested handles over-weighted) or read through any root or "
-        "specification-attached handle, drawn so that consecutive operations usually switch objects. "
+        "specification-attached handle, drawn so that consecutive operations usually switch objects; "
+        "one step in twenty starts an A-B-A script (object A mutates, object B changes the same "
+        "place, A repeats the same mutation). "
         "Oracle: all handles behave as one plain structure - every outcome equals the model's, the "
         "independently read resource equals the model after every mutator, every root's () equals it "
         "at the end. Non-trivial = a mutator through tree A executed while another tree wrote since "
